@@ -126,9 +126,9 @@ BRIDGE = {
         "process_mid", "srv_idle_mid", "cli_await_mid", "recv_header_bridge", "cli_await_hdr_mid",
         "gen_recv_oversize_dropped", "process_bridge", "respond_bridge", "srv_finish_bridge", "srv_on_recv_bridge",
         "cli_finish_bridge", "cli_await_bridge", "cli_on_recv_bridge", "cli_send_bridge", "cli_start_bridge",
-        "serve_header_peer", "recv_unpack_peer", "get_fields_peer", "response_pack_peer", "ho_send_octets_bridge",
-        "ho_send_offers_every_chunk", "ho_send_all_accepted", "ho_srv_frags_bridge", "gen_serve_header_total", "gen_response_pack_shape",
-        "gen_oversize_rejected", "gen_excess_never_partial")],
+        "send_request_bridge", "send_request_offers_every_fragment", "serve_header_peer", "recv_unpack_peer", "get_fields_peer",
+        "response_pack_peer", "ho_send_octets_bridge", "ho_send_offers_every_chunk", "ho_send_all_accepted", "ho_srv_frags_bridge",
+        "gen_serve_header_total", "gen_response_pack_shape", "gen_oversize_rejected", "gen_excess_never_partial")],
     "properties": ["C06", "C07"],
 }
 
@@ -229,6 +229,8 @@ MUTATIONS = [
     ("snep_put_fields", "NDEF octets offset", "octets = request_data[6:]", "octets = request_data[5:]"),
     ("snep_response_pack", "header after the data", "response_data = header + response_data", "response_data = response_data + header"),
     ("snep_response_pack", "length of header + data", "len(response_data))", "len(response_data) + 6)"),
+    ("snep_send_request", "fragment loop starts at offset 0 (first fragment sent twice)", "range(send_miu, len(snep_request), send_miu)", "range(0, len(snep_request), send_miu)"),
+    ("snep_send_request", "wrong Continue accepted", 'if socket.recv() != b"\\x10\\x80\\x00\\x00\\x00\\x00":\n        return False', 'if socket.recv() != b"\\x10\\x80\\x00\\x00\\x00\\x00":\n        pass'),
     ("ho_send_octets", "fragment one octet short", "octets[0:miu]", "octets[0:miu-1]"),
     ("ho_send_octets", "result when a send failed", "return len(octets) == 0", "return len(octets) >= 0"),
     ("snep_srv_bad_version", "version check accepts major version 2", "(version >> 4) > 1", "(version >> 4) > 2"),
